@@ -96,6 +96,7 @@ class TokenSpec(FnContract):
         fw = [e for e in ex.events if e[0] == 'field_write']
         n = name
         # frame: a rule touches only its token and the two lexer counters
+        fw = [e for e in fw if not ex.same(L.BoolV(ex.is_fresh(e[1])), L.TrueV)]        # objects the rule creates are its own
         for e in fw:
             ok = (e[2] in ('value', 'type') and True) or e[2] in ('lineno', 'paren_count')
             ex.prove('C11:%s:writes-only-token-fields-and-lexer-counters[%s]' % (n, e[2]), ['C11', 'C15', 'C20'], ok)
